@@ -4,7 +4,7 @@ import warnings
 
 import numpy as np
 
-from .. import common, gen as G, loopsem as L, expr as X
+from .. import common, gen as G, loopsem as L, expr as X, loopvmap as LV
 from ..common import Violation
 from ._base import standard_run, standard_worker
 
@@ -12,7 +12,7 @@ PROP = "C01"
 RULE = (
     "Hypothesis draws abstract calls (operation, input/output expressions with flatten/concat/ellipsis/"
     "brackets/numbers/diagonal/squeeze/broadcast, axis lengths from {1,1,2,2,3,3,4,5}, minimal keyword sizes, "
-    "backend in {None,numpy,numpy.numpylike,numpy.einsum}, integer-permutation/float data) constructively per "
+    "backend in {None,numpy,numpy.numpylike,numpy.einsum,numpy.loopvmap (the vmap adapter chain over a numpy loop vmap, einxverif/loopvmap.py)}, integer-permutation/float data) constructively per "
     "operation family; the printed description is executed by einx and compared with a literal loop "
     "interpreter. Non-trivial: >=2 axes longer than 1 and one of permutation/flatten/concat/ellipsis>=2/"
     "diagonal/broadcast/squeeze/scattered brackets/inputs with different axis sets; distinct by "
@@ -30,6 +30,8 @@ ASSUMPTIONS = [
 def call_einx(case, arrays, graph=False):
     import einx
 
+    if case.get("backend") == LV.NAME:
+        LV.backend()
     fn = getattr(einx, case["op"])
     kwargs = dict(case["sizes"])
     for k, v in (case.get("opts") or {}).items():
@@ -49,6 +51,8 @@ def unsupported_allowed(case):
         return op not in G.EINSUM_OPS
     if b == "numpy.numpylike":
         return op == "dot" and len(case["ins"]) != 2
+    if b == LV.NAME:
+        return op in G.UPDATE or op == "dot"  # documented limits: two operands, exactly one contraction axis
     return False
 
 
@@ -58,9 +62,14 @@ def value_class(case, feats):
     return G.family_of(case["op"]) + ":" + "+".join(tags)
 
 
+C01_BACKENDS = [None, "numpy", "numpy.numpylike", "numpy.einsum", "numpy.loopvmap", "numpy.loopvmap"]
+
+
 def evaluate(case, stats):
     import einx
 
+    if case.get("backend") == LV.NAME:
+        LV.backend()
     feats = G.features(case)
     arrays = G.build_arrays(case)
     try:
@@ -118,7 +127,7 @@ def replay_case(case):
 
 
 def make_strategy(tier, k):
-    return G.call_case(quick=(tier == "quick"))
+    return G.stratified_case(k, quick=(tier == "quick"), backends=C01_BACKENDS)
 
 
 def worker(k, n, tier, seed, known_buckets, extra):
